@@ -390,7 +390,9 @@ def callClauses (req : Request B) (script : Option Script) (o : ObsCall) : List 
       | .ok r, .ok oo =>
         Spec.Interceptor.passClauses { r with body := canonBody r.body } oo.resp ++
         [("response-no-foreign-extensions", oo.extTotal == r.ext.length),
-         ("response-body-hints", oo.eos == bodyEos r.body && oo.lo == bodySize r.body && oo.hi == some (bodySize r.body))]
+         -- `size_hint` is compared model-vs-observed only (a different hint on the same body is not a
+         -- violation of the property); `is_end_stream` is part of the verdict because hyper acts on it
+         ("response-body-end-stream", oo.eos == bodyEos r.body)]
       | _, _ => [("response-kind-passed-through", false)]
     input ++ acc ++ frame ++ resp
   | .reject st =>
@@ -398,8 +400,7 @@ def callClauses (req : Request B) (script : Option Script) (o : ObsCall) : List 
       | .error _ => [("reject-yields-response", false)]
       | .ok oo =>
         Spec.Interceptor.rejectClauses st o.saw.isSome
-          { status := oo.resp.status, headers := oo.resp.headers, endStream := oo.eos, frames := frameCount oo.resp.body } ++
-        [("reject-size-hint-zero", oo.lo == 0 && oo.hi == some 0)]
+          { status := oo.resp.status, headers := oo.resp.headers, endStream := oo.eos, frames := frameCount oo.resp.body }
     input ++ view
 
 /-- one call's observation: either the service reported not ready (no call made) or a call -/
